@@ -186,6 +186,22 @@ def main():
 
             gid, delay = case["kill_during_terminate"]
             threading.Timer(delay, lambda: _quiet(lambda: os.kill(workers[gid], signal.SIGKILL))).start()
+        late = {}
+        if case.get("makegateway_during_terminate"):
+            # another thread is still making a gateway when terminate() begins (it is busy with a stuck member meanwhile)
+            import threading
+
+            def make_late():
+                time.sleep(case["makegateway_during_terminate"])
+                try:
+                    group.makegateway("popen//id=late")
+                    late["outcome"] = "returned"
+                except BaseException as e:  # noqa
+                    late["outcome"] = f"{type(e).__name__}: {str(e)[:120]}"
+                late["t"] = time.monotonic()
+
+            lt = threading.Thread(target=make_late, daemon=True)
+            lt.start()
         t0 = time.monotonic()
         raised = None
         try:
@@ -194,7 +210,11 @@ def main():
             import traceback
 
             raised = f"{type(e).__name__}: {str(e)[:200]} | {traceback.format_exc()[-500:]}"
-        emit(event="terminate_done", seconds=round(time.monotonic() - t0, 3), len_group=len(group), raised=raised)
+        t_ret = time.monotonic()
+        if case.get("makegateway_during_terminate"):
+            lt.join(20)
+            emit(event="late_makegateway", outcome=late.get("outcome"), finished_before_terminate_returned=bool(late) and late["t"] < t_ret - 0.3)
+        emit(event="terminate_done", seconds=round(t_ret - t0, 3), len_group=len(group), raised=raised)
         # stay around briefly so the harness can inspect /proc while we are still the parent
         time.sleep(case.get("linger", 1.5))
         os._exit(0)
